@@ -836,6 +836,9 @@ func cmdVerify(args []string) {
 		fmt.Printf("== %s.%s  (%d obligations, %d ms)\n", ct.Pkg, ct.Name, len(rep.Obls), time.Since(start).Milliseconds())
 		if rep.Unsupported != "" {
 			fmt.Printf("   OUTSIDE SUBSET: %s\n", rep.Unsupported)
+		}
+		for _, n := range rep.SetAside {
+			fmt.Printf("   SET ASIDE: %s\n", n)
 			bad++
 		}
 		for _, h := range rep.Havocked {
